@@ -1,6 +1,6 @@
 SPECIFICATION Spec
 CONSTANTS
-  MaxCmds = 3
+  MaxCmds = 4
   MaxMoves = 2
   MaxSlice = 2
   MaxSends = 2
@@ -9,7 +9,7 @@ CONSTANTS
   BugSharedChannel = FALSE
   BugFallbackBeforeLoop = FALSE
   BugStaleGameOver = FALSE
-  BugGameOverLatch = FALSE
+  BugGameOverLatch = TRUE
   BugGivesUpOnGarbage = FALSE
 INVARIANT TypeOk
 INVARIANT OneAnswerPerGo
